@@ -44,6 +44,25 @@ def emitters(P):
     return em
 
 
+def addr_text_field(P):
+    """Name of the request member that holds the client's address as text: the buffer the address printer fills from
+    the request's own address when the client is announced (found structurally, so that renaming the member does not
+    lose the anchor)."""
+    cache = P.__dict__.setdefault('_addr_text_field', [])
+    if cache:
+        return cache[0]
+    name = None
+    for f in P.unit_fns(sender(P).unit):
+        for s in f.calls('irc_ntop'):
+            a = s.ev['args']
+            if a and isinstance(a[0], dict) and a[0].get('k') == 'mem' and a[0].get('rec') == REQ_REC:
+                name = a[0].get('field')
+    if name is None:
+        name = 'text_addr'
+    cache.append(name)
+    return name
+
+
 def first_word(fmt):
     return re.split(r'\s', fmt)[0] if fmt is not None else None
 
